@@ -120,7 +120,8 @@ def expected_measure(tname, meas):
 def run_transform(ctx, tname):
     rng = ctx.rng
     nan = tname == 'rank' and bool(rng.integers(2))
-    v, meta = make_rdms(rng, nan=nan)
+    # (rank transforms see tied whole-number RDMs half of the time: tie-averaged ranks end in .5)
+    v, meta = make_rdms(rng, nan=nan, kind='ties' if tname == 'rank' and rng.integers(2) else None)
     params = {}
     if tname in ('minmax', 'geodesic', 'geotopological'):
         if any(np.ptp(r) < 1e-9 for r in v):
@@ -149,7 +150,7 @@ def run_transform(ctx, tname):
                 row[i], row[j] = 1.0, float(1 + r)
         meta['kind'] = 'int_range'
     if tname == 'rank':
-        params['method'] = gen.pick(rng, ['average', 'min', 'max', 'dense', 'ordinal'])
+        params['method'] = gen.pick(rng, ['average', 'average', 'average', 'min', 'max', 'dense', 'ordinal'])
     if tname == 'geotopological':
         low = float(gen.pick(rng, [0.0, 0.05, 0.1, 0.2, 0.3]))
         up = float(gen.pick(rng, [0.6, 0.7, 0.8, 0.9, 1.0]))
@@ -374,6 +375,39 @@ def run_invariance(ctx):
                          f'{maxdiff(base, aft)}', dict(v1=v1, v2=v2, scale=sc, offset=off, sigma_k=sig_s))
 
 
+def run_storage(ctx):
+    """a categorical (0/1) model RDM is the same RDM whether it is stored as booleans, as small unsigned integers or as
+    floats: every measure of it against a continuous stack is the same number (storage is the identity map -- the
+    weakest of the strictly increasing / positive / affine maps the property speaks of)"""
+    rng = ctx.rng
+    n_cond = int(rng.integers(4, 8))
+    n_pair = n_cond * (n_cond - 1) // 2
+    cat = rng.integers(0, 2, size=(int(rng.integers(1, 3)), n_pair))
+    if any(r.min() == r.max() for r in cat):
+        ctx.count('rejected_degenerate')
+        return
+    other = gen.rdm_vectors(rng, int(rng.integers(1, 4)), n_cond, 'pos')
+    as_obj = bool(rng.integers(2))
+    wrap = (lambda a: RDMs(a.copy())) if as_obj else (lambda a: a.copy())
+    for m in ('cosine', 'corr', 'spearman', 'rho-a', 'tau-a', 'kendall', 'cosine_cov', 'corr_cov'):
+        sig = dict(measure=m, map='storage', objects=as_obj)
+        wit = lambda **k: dict(cat=cat, other=other, measure=m, **k)  # noqa: E731
+        ok, base = ctx.guarded('invariance:storage', sig, compare, wrap(cat.astype(float)), wrap(other), method=m, data=wit)
+        if not ok:
+            return
+        for dt in (bool, np.uint8, np.int64):
+            ok2, got = ctx.guarded('invariance:storage', dict(sig, dtype=np.dtype(dt).name), compare, wrap(cat.astype(dt)),
+                                   wrap(other), method=m, data=wit)
+            if not ok2:
+                return
+            ctx.case('invariance:storage', dict(sig, dtype=np.dtype(dt).name))
+            if not close(np.asarray(got), np.asarray(base), 1e-12, 1e-12):
+                ctx.fail('invariance:storage', dict(sig, what='storage_dependent'), f'{m} of a 0/1 RDM stored as '
+                         f'{np.dtype(dt).name} is {np.asarray(got).tolist()}, stored as float64 {np.asarray(base).tolist()}',
+                         wit(dtype=np.dtype(dt).name))
+                return
+
+
 def run(ctx):
     n = ctx.n(420, 4000)
     for it in range(n):
@@ -381,5 +415,7 @@ def run(ctx):
             ctx.notes.append(f'time budget reached after {it} rounds')
             break
         run_transform(ctx, TRANSFORMS[it % len(TRANSFORMS)])
+        if it % 20 == 0:
+            run_storage(ctx)
         if it % 3 == 0:
             run_invariance(ctx)
